@@ -11,7 +11,7 @@ from . import sched_env as E
 LEAN_TARGETS = ['DawgieVerif.Model.FarmIO']
 
 MANIFEST = dict(
-    text='Lean theorems over Model/Farm.lean (Hand._reg, connectionLost, status poll, notify/notify_all, the assignment loop of dispatch, clear) for every valid history of registrations with matching or stale revision, disconnects, status polls, dispatch ticks, revision changes and activity changes: only_eligible (a task message goes only to a connection that was idle-listed, is connected, holds no task and registered with the current revision, and only while active), archive_tick_aborts (the tick in which dispatch itself fires the archive tells every idle worker to leave), one_task_per_worker, inactive_only_abort (while not active every step writes nothing but abort; a dispatch tick writes nothing), unplaced_stay (handed-out messages ++ queue is a permutation of old queue ++ newly queued), message_fields and fresh_id_drawn_iff (job, target, run id 0 for regressions, the event run id or a fresh one drawn exactly when none) over the scheduler model. Invariant FInv by induction over op lists. Tied by op-by-op correspondence with the real farm on fake transports (bytes written are decoded with the real message.loads); the monitor checks every written message against the registration/connection/holding state it tracks itself, and farm.crew() against the units handed out and not answered.',
+    text='Lean theorems over Model/Farm.lean (Hand._reg, connectionLost, status poll, notify/notify_all, the assignment loop of dispatch, clear) for every valid history of registrations with matching or stale revision, disconnects, status polls, dispatch ticks, revision changes and activity changes: only_eligible (a task message goes only to a connection that was idle-listed, is connected, holds no task and registered with the current revision, and only while active), archive_tick_aborts (the tick in which dispatch itself fires the archive tells every idle worker to leave), one_task_per_worker, inactive_only_abort (while not active every step writes nothing but abort; a dispatch tick writes nothing), unplaced_stay (handed-out messages ++ queue is a permutation of old queue ++ newly queued), handed_xor_queued (its counting form: every message is handed to exactly one worker or still queued, never both or twice), message_fields and fresh_id_drawn_iff (job, target, run id 0 for regressions, the event run id or a fresh one drawn exactly when none) over the scheduler model. Invariant FInv by induction over op lists. Tied by op-by-op correspondence with the real farm on fake transports (bytes written are decoded with the real message.loads); the monitor checks every written message against the registration/connection/holding state it tracks itself, and farm.crew() against the units handed out and not answered.',
     note='Assumed (ValidRun, exercised as a separate malformed stream): one register per connection; the life-cycle changes git_rev only while inactive and becomes active again only after farm.clear() (established by C10 for update -> ... -> load). _workers_sort (round robin over hosts) is the identity for one host, which is what the harness uses; insights is empty so _cluster_sort is the stable sort by run id. AWS/cloud placement (_agency) is not modelled. That db.next() exceeds every stored run id is C08. Trusted: Lean kernel, harness fakes.',
     technique='Lean 4 proof: invariant by induction over farm operation histories + differential correspondence',
     design='7/C11',
